@@ -24,8 +24,9 @@ ASSUMPTIONS = [
     'axioms reported by Print Assumptions for C20_float_progress/C20_float_complete/C20_float_constants '
     '(Flocq 4.1 + Coq Reals): ClassicalDedekindReals.sig_not_dec, ClassicalDedekindReals.sig_forall_dec, '
     'FunctionalExtensionality.functional_extensionality_dep, Classical_Prop.classic, and the primitive-float '
-    'specification axioms FloatAxioms.{add,mul,leb,eqb,ltb,opp,abs,div,...}_spec / Prim2SF_valid / SF2Prim_Prim2SF '
-    'etc. (Coq.Floats.FloatAxioms: the primitives implement IEEE-754 binary64); the PrimFloat/PrimInt63 primitives',
+    'specification axioms FloatAxioms.add_spec, mul_spec, leb_spec, eqb_spec, abs_spec, Prim2SF_valid, '
+    'SF2Prim_Prim2SF, Prim2SF_SF2Prim (Coq.Floats.FloatAxioms: the primitives implement IEEE-754 binary64); '
+    'the PrimFloat/PrimInt63 primitives',
     'StatusMonitor is driven with a duck-typed experiment/controller (fakes trusted)',
 ]
 HEADER = 'Require Import V.Weights.Model.\nOpen Scope Z_scope.'
